@@ -323,3 +323,23 @@ Proof.
   - repeat constructor; unfold nonempty; congruence.
   - vm_compute. congruence.
 Qed.
+
+(* ------------------------------------------------------------------ saturation *)
+(* offsets and counts beyond the end of the result select the same slice as length+1: the
+   correspondence hands `limit s, 9223372036854775807` to the twin in this clamped form *)
+Lemma slice_saturates_lemma : forall (A : Type) (start count : nat) (rows : list A),
+  firstn count (skipn start rows) =
+  firstn (Nat.min count (S (length rows))) (skipn (Nat.min start (S (length rows))) rows).
+Proof.
+  intros A start count rows.
+  assert (Hs : skipn start rows = skipn (Nat.min start (S (length rows))) rows).
+  { destruct (Nat.le_gt_cases start (S (length rows))) as [Hle|Hgt].
+    - rewrite Nat.min_l by assumption. reflexivity.
+    - rewrite Nat.min_r by lia. rewrite !skipn_all2 by lia. reflexivity. }
+  rewrite <- Hs.
+  destruct (Nat.le_gt_cases count (S (length rows))) as [Hle|Hgt].
+  - rewrite Nat.min_l by assumption. reflexivity.
+  - rewrite Nat.min_r by lia.
+    assert (Hl : length (skipn start rows) <= length rows) by (rewrite skipn_length; lia).
+    rewrite !firstn_all2 by lia. reflexivity.
+Qed.
